@@ -33,7 +33,7 @@ def run(ctx):
         "seeded sample plus every group in which two spatial families meet); seeded record populations (1-2 instruments, filters with "
         "bands, detectors, days, groups, exposures, visits with regions or NULL region, visit definitions and visit-system memberships "
         "on subsets, per-detector regions on subsets, 1-2 skymaps with tracts and patches on an integer grid so that regions touch, nest "
-        "and are disjoint); three insertion histories per population; non-trivial = (group, population) pairs whose result is neither "
+        "and are disjoint); four insertion histories per population (bulk insert; shuffled + sync; displaced regions corrected by replace / sync-update and key-only tables written with replace; NULL regions filled in by sync-update), regions stored as great-circle polygons or lon/lat boxes; non-trivial = (group, population) pairs whose result is neither "
         "empty nor the full product of the value domains"
     )
     ctx.assumptions = [
@@ -56,12 +56,16 @@ def val(el, rec, dim):
     return rec[dim]
 
 
-def overlap(r1, r2):
+def overlap(rec1, rec2):
+    """Not provably disjoint, for the region objects as stored (sphgeom's relation is the arbiter)."""
     from lsst import sphgeom
 
-    if r1 is None or r2 is None:
+    if rec1.get("region") is None or rec2.get("region") is None:
         return False
-    return not (dimpop.box(*r1).relate(dimpop.box(*r2)) & sphgeom.DISJOINT)
+    # the exact relation of the rectangles as great-circle polygons: a region stored as a lon/lat Box is placed strictly inside
+    # its grid cell (0.3 degrees from every grid line), so the tiny difference between a lon/lat box and the polygon with the
+    # same corners cannot change the answer, while sphgeom's Box-versus-polygon relation is only tri-state
+    return not (dimpop.box(*rec1["region"]).relate(dimpop.box(*rec2["region"])) & sphgeom.DISJOINT)
 
 
 def constraints(G, pop, meta):
@@ -88,7 +92,7 @@ def constraints(G, pop, meta):
         allowed = set()
         for r1 in pop[obs]:
             for r2 in pop[sky]:
-                if overlap(r1.get("region"), r2.get("region")):
+                if overlap(r1, r2):
                     allowed.add(tuple(val(obs, r1, c) for c in ocols) + tuple(val(sky, r2, c) for c in scols))
         cons.append((ocols + scols, allowed))
     return cons
@@ -160,7 +164,7 @@ def joins(ctx, model_ok, tmp):
     for pi in range(n_pop):
         pop = dimpop.generate(rng)
         butlers = {}
-        for mode in ("insert", "sync", "replace"):
+        for mode in ("insert", "sync", "replace", "null-sync"):
             root = os.path.join(tmp, f"p{pi}_{mode}")
             shutil.copytree(empty, root)
             butlers[mode] = Butler.from_config(root, writeable=True)
@@ -221,7 +225,7 @@ def joins(ctx, model_ok, tmp):
             ctx.sample({"group": list(G), "rows": len(want)}, cap=6)
         for b in butlers.values():
             del b
-        for mode in ("insert", "sync", "replace"):
+        for mode in ("insert", "sync", "replace", "null-sync"):
             shutil.rmtree(os.path.join(tmp, f"p{pi}_{mode}"), ignore_errors=True)
     if model_ok:
         got = core.driver(req)
